@@ -16,10 +16,10 @@ ANCHORS = ['phylib.io.traces:_get_subitems', 'phylib.io.traces:_find_chunks',
            'phylib.io.traces:FlatEphysReader._get_part', 'phylib.io.traces:MtscompEphysReader._get_part',
            'phylib.io.traces:ArrayEphysReader._get_part', 'phylib.io.traces:_get_ephys_constructor',
            'phylib.io.traces:get_ephys_reader']
-RULE = ('Layouts: flat files (.dat/.bin/.raw, header offset 0/1/7/16) for EVERY composition of n into '
+RULE = ('Layouts: flat files (.dat/.bin/.raw/.mda, header offset 0/1/7/16) for EVERY composition of n into '
         'parts >= 1 (n <= N), .npy, in-memory array, .cbin (chunk lengths 1,2,3,n; 1-3 decoder threads); '
         'dtypes uint8/int16/uint16/int32/float32/float64; 1,2,3,5 channels; unique cell values. Per '
-        'layout: every int in [-n,n) (int and np.int64), every slice with bounds in {None} U [-n,n] '
+        'layout: every int in [-n,n) (int, np.int64, np.int16), every slice with bounds in {None} U [-n,n] '
         'selecting >= 1 row, every non-empty strictly increasing index set as list / int64 / int32 / '
         'uint16 array (not on cbin), each alone and with 4 column selectors (slice, reversed slice, '
         'index list, permutation array); reader attributes vs the array. thorough adds random layouts '
@@ -55,7 +55,7 @@ def layouts(N, tier, seed):
             dts = DTYPES if tier == 'thorough' and n <= 7 else [DTYPES[k % 6], DTYPES[(k + 3) % 6]]
             for dt in dts:
                 k += 1
-                yield {'backend': 'flat', 'ext': L.FLAT_EXT[k % 3], 'offset': OFFSETS[(k // 3) % 4],
+                yield {'backend': 'flat', 'ext': L.FLAT_EXT[k % 4], 'offset': OFFSETS[(k // 3) % 4],
                        'dtype': dt, 'nc': NCS[(k // 2) % 4], 'parts': parts}
         for dt in DTYPES:
             k += 1
@@ -83,7 +83,7 @@ def run_shard(desc, ctx):
                 cuts = np.unique(cuts)
             parts = np.diff(np.r_[0, cuts, n]).astype(int).tolist()
             be = ['flat', 'flat', 'flat', 'cbin', 'npy'][int(rng.integers(0, 5))]
-            lay = {'backend': be, 'ext': L.FLAT_EXT[r % 3], 'offset': OFFSETS[r % 4],
+            lay = {'backend': be, 'ext': L.FLAT_EXT[r % 4], 'offset': OFFSETS[r % 4],
                    'dtype': DTYPES[int(rng.integers(0, 6))] if be != 'cbin' else 'int16',
                    'nc': NCS[int(rng.integers(0, 4))], 'parts': parts if be == 'flat' else [n],
                    'chunk_len': int(rng.integers(1, 40)), 'threads': int(rng.integers(1, 4)),
@@ -96,6 +96,7 @@ def all_items(n, lists):
     for i in range(-n, n):
         out.append(i)
         out.append(np.int64(i))
+        out.append(np.int16(i))
     vals = [None] + list(range(-n, n + 1))
     for a in vals:
         for b in vals:
